@@ -585,12 +585,19 @@ theorem handle_out (fails : Item → Bool) (x : SideSt) (w : Bool) (f : Frame) :
     dataOf k (handle fails x w f).out = dataOf k x.out := by
   rcases handle_out fails x w f with h | ⟨id, v, -, -, -, -, h⟩ <;> rw [h] <;> simp
 
-/-- `finished` only changes on GATEWAY_TERMINATE -/
+/-- the frame ends the receiver thread: GATEWAY_TERMINATE, or a DATA frame whose callback fails while
+the IO is already closed (the CLOSE_ERROR cannot be written; the OSError escapes the handler) -/
+def endsReceiver (fails : Item → Bool) (x : SideSt) : Frame → Bool
+  | .terminate => true
+  | .data id v => (x.cbs id).isSome && fails v && !x.ioOpen
+  | _ => false
+
+/-- `finished` only changes on a receiver-ending frame -/
 theorem handle_finished (fails : Item → Bool) (x : SideSt) (w : Bool) (f : Frame) :
-    (handle fails x w f).finished = (x.finished || f == .terminate) := by
-  cases f <;> simp only [handle]
+    (handle fails x w f).finished = (x.finished || endsReceiver fails x f) := by
+  cases f <;> simp only [handle, endsReceiver]
   all_goals repeat' split
-  all_goals first | (simp; done) | (simp [epilogue]; done) | (rw [Bool.or_false]; rfl)
+  all_goals simp_all
 
 /-- the channel ids a frame makes its receiver create records for -/
 def Frame.ids : Frame → List Nat
